@@ -273,7 +273,7 @@ Definition builtinE (name : str) (args : list term) (s : st) : option eresT :=
         Some (let '(xs, e) := call_goalE g [] s in
               match e with
               | Some x => ([], Some x)
-              | None => let '(es, b) := collect (nxt s) (nxt s) t xs in
+              | None => let '(es, b) := collect 0 (nxt s) t xs in
                         unify_stE {| sto := sto s; nxt := b |} l (mk_list es)
               end)
     | _ => None end
@@ -395,7 +395,7 @@ Proof.
   destruct (str_eqb name (s_ "findall")); [|reflexivity].
   destruct args as [|t [|g [|l [|? ?]]]]; try reflexivity. cbn [option_map]. rewrite <- call_goalE_erase.
   destruct (call_goalE cE g [] s) as [xs e]. unfold er at 2. cbn [fst snd]. destruct e as [x|]; cbn [eb]; [reflexivity|].
-  destruct (collect (nxt s) (nxt s) t xs) as [es b]. rewrite unify_stE_erase. reflexivity.
+  destruct (collect 0 (nxt s) t xs) as [es b]. rewrite unify_stE_erase. reflexivity.
 Qed.
 
 Lemma iterE_erase it cf : er (iterE cE it cf) = iter c it cf.
@@ -495,7 +495,7 @@ Proof.
   destruct args as [|t [|g [|l [|? ?]]]]; try discriminate. intros H; injection H as <-.
   pose proof (call_goalE_ok g [] s) as G. destruct (call_goalE cE g [] s) as [xs e0]. destruct e0 as [x|].
   - intros e H. cbn in H. injection H as <-. apply G. reflexivity.
-  - destruct (collect (nxt s) (nxt s) t xs) as [es b]. apply unify_stE_ok.
+  - destruct (collect 0 (nxt s) t xs) as [es b]. apply unify_stE_ok.
 Qed.
 
 Lemma iterE_ok it cf e : snd (iterE cE it cf) = Some e -> Q e.
